@@ -449,10 +449,12 @@ def finish(pid, tier, seed, code, t0, L):
                             'backend': r['backend'], 'time_s': round(r['time'], 3)})
     trusted = []
     if gen is not None and spec is not None:
-        for q in sorted(gen.used_contracts):
+        for q in sorted(set(gen.used_contracts) | set(getattr(gen, 'verified_quals', ()))):
             c = spec.contracts.get(q)
             if c is not None and c.trusted:
                 trusted.append('trusted contract %s%s' % (q, (': ' + c.note) if c.note else ''))
+            if c is not None and c.entry_assumes and q in getattr(gen, 'verified_quals', ()):
+                trusted.append('entry assumption of %s (not demanded from callers): %s' % (q, '; '.join(c.entry_assumes)))
             if c is not None and c.assumed:
                 trusted.append('assumed (unproved) clauses of %s: %s' % (q, '; '.join(c.assumed)))
     kn = L.get('known_hits', [])
